@@ -52,8 +52,20 @@ func (f *freshFn) inSameObjectBranch(n ast.Node) bool {
 	}
 	var child ast.Node = n
 	for x := f.par[n]; x != nil; child, x = x, f.par[x] {
+		var cond ast.Expr
 		if ifs, ok := x.(*ast.IfStmt); ok && child == ast.Node(ifs.Body) {
-			if be, ok := unparen(ifs.Cond).(*ast.BinaryExpr); ok && be.Op == token.EQL {
+			cond = ifs.Cond
+		}
+		// or the clause `case dst == src:` of a switch without a tag
+		if cc, ok := x.(*ast.CaseClause); ok && len(cc.List) == 1 && child != ast.Node(cc.List[0]) {
+			if blk, ok := f.par[x].(*ast.BlockStmt); ok {
+				if sw, ok := f.par[blk].(*ast.SwitchStmt); ok && sw.Tag == nil {
+					cond = cc.List[0]
+				}
+			}
+		}
+		if cond != nil {
+			if be, ok := unparen(cond).(*ast.BinaryExpr); ok && be.Op == token.EQL {
 				ix, okx := unparen(be.X).(*ast.Ident)
 				iy, oky := unparen(be.Y).(*ast.Ident)
 				if okx && oky {
@@ -495,6 +507,37 @@ func ruleCloneDeep(c *Ctx, rule, short, name string) {
 				}
 				return true
 			})
+		}
+		// or the elements are appended one by one to a local that is assigned to the field: cols = append(cols, fresh)
+		if id, ok := unparen(assigned).(*ast.Ident); ok && elemRhs == nil {
+			local := p.TypesInfo.ObjectOf(id)
+			for _, st := range fd.Body.List {
+				rs, ok := st.(*ast.RangeStmt)
+				if !ok {
+					continue
+				}
+				ast.Inspect(rs.Body, func(n ast.Node) bool {
+					as, ok := n.(*ast.AssignStmt)
+					if !ok || len(as.Lhs) != 1 || len(as.Rhs) != 1 {
+						return true
+					}
+					l, ok := unparen(as.Lhs[0]).(*ast.Ident)
+					if !ok || p.TypesInfo.ObjectOf(l) != local {
+						return true
+					}
+					call, ok := unparen(as.Rhs[0]).(*ast.CallExpr)
+					if !ok || len(call.Args) != 2 || call.Ellipsis.IsValid() {
+						return true
+					}
+					if b, ok := calleeOf(p, call).(*types.Builtin); !ok || b.Name() != "append" {
+						return true
+					}
+					if a0, ok := unparen(call.Args[0]).(*ast.Ident); ok && p.TypesInfo.ObjectOf(a0) == local {
+						elemRhs = call.Args[1]
+					}
+					return true
+				})
+			}
 		}
 		// append(nil, ...) of elements that need deep copies is shallow
 		if elemRhs == nil {
